@@ -64,6 +64,12 @@ claim('C09', 'rule-slot inventory of fail-closed gates (per-exit and per-iterati
       'gates in loops hold for every completed iteration and loops cannot be bypassed; the two document validators agree; no reflect.DeepEqual compares different static types; the global-statement rules equal their decision table; verifiers are only built by the constructor, '
       'which validates every non-nil document; the file-name validator accepts no separator, NUL, empty or dot-only name. Decides the "only if" direction (every listed rule is enforced); completeness of the list against the specification is not decided.', 'DESIGN.md 2/C09')
 
+claim('C10', 'effect-site gates across a closure (captured cells resolved to the outer allocation), per-iteration guards, typestate of the counter cell, reachability after the success edge',
+      'Static, all-paths: every repository call is cut by the nil checks, the positive limit and (for skippers) skip == false; parse/empty/resolve/digest-pinning failures are fail-closed and listing/verification use the resolved descriptor; '
+      'the attempt counter is one cell of the outer function starting at 0 and changed only by a single +1 in the callback, tested against the caller\'s MaxSignatureAttempts before each fetch and verify of the same iteration; after a successful '
+      'verification no fetch, verification, iteration or nil return is reachable and the stored outcomes are exactly that outcome; fetch errors and nil outcomes end the callback with an error; the success exit needs the flag and a non-zero counter. '
+      'Holds per callback invocation and for the shared cell, hence for every paging; behaviour of concrete repositories is trusted.', 'DESIGN.md 2/C10')
+
 NA_REASON = {}
 
 def main():
